@@ -6,14 +6,33 @@ from translator import tables
 
 
 def regen(ctx):
+    """regenerate (1) Gen/Registry.lean, the name -> (class, ovo) table of `_str_to_gemini`, and (2) Gen/Geminis.lean, the
+    straight-line NumPy code of the `evaluate` methods (KL, TV, Hellinger, chi2, MMD; one definition per (ovo, return_grad))
+    as the source says now; Props/C01Gen.lean proves (2) equal to the hand models the C01 / C02 / C13 theorems are stated
+    about.  Returns the registry data (None when the registry could not be translated)."""
+    from translator import geminis as tg
+    ctx.translation = {"units": [], "regenerated": 0, "identical_to_committed": True}
+    failures = []
+    data = None
     try:
         data, text = tables.registry()
+        changed = core.write_if_changed(core.LEAN + "/GemVerif/Gen/Registry.lean", text)
+        ctx.translation["units"].append("gemini/_utils.py::_str_to_gemini -> Gen/Registry.lean")
+        ctx.translation["regenerated"] += 1
+        ctx.translation["identical_to_committed"] &= not changed
     except tables.TranslationFailure as e:
-        ctx.extra["translation_failure"] = f"registry: {e}"
-        return None
-    changed = core.write_if_changed(core.LEAN + "/GemVerif/Gen/Registry.lean", text)
-    ctx.translation = {"units": ["gemini/_utils.py::_str_to_gemini -> Gen/Registry.lean"], "regenerated": 1,
-                       "identical_to_committed": not changed}
+        failures.append(f"registry: {e}")
+    try:
+        gdata, gtext = tg.geminis()
+        changed = core.write_if_changed(core.LEAN + "/GemVerif/Gen/Geminis.lean", gtext)
+        ctx.translation["units"] += [f"{u['file']}::{u['class']}.evaluate[ovo={u['ovo']}, return_grad={u['return_grad']}]"
+                                     f" -> Gen/Geminis.lean::{name}" for name, u in gdata.items()]
+        ctx.translation["regenerated"] += len(gdata)
+        ctx.translation["identical_to_committed"] &= not changed
+    except (tables.TranslationFailure, SyntaxError, OSError) as e:
+        failures.append(f"geminis: {e}")
+    if failures:
+        ctx.extra["translation_failure"] = "; ".join(failures)
     return data
 
 
